@@ -209,6 +209,9 @@ func runC07(c *Ctx) {
 					if _, ok := u.(*ssa.Return); ok && u.Parent() != fn {
 						continue // the return of a spliced helper hands the value on, it does not use it
 					}
+					if m.helperOf(u) != nil {
+						continue // passing the value to a spliced helper: the helper's own uses are in this list
+					}
 					if b, ok := u.(*ssa.BinOp); ok && b.Op == token.LSS || ok && b.Op == token.GEQ {
 						if (b.X == rv && b.Y == ssa.Value(sizeP)) || (b.Y == rv && b.X == ssa.Value(sizeP)) {
 							continue
